@@ -362,3 +362,75 @@ Proof.
   destruct (reassign_passes_py n p0 K0 L0) as (pst & F & _ & L).
   exists st, pst. repeat split; auto.
 Qed.
+
+(* ================================================================== reference arguments, tuple assignment *)
+(* x.append(y[i]) / x.remove(y[i]): `value` is a reference into y's buffer (y may be x itself);
+   safe exactly when Python's index condition holds, with Python's result *)
+Lemma argument_alias_safe : forall h l cs s cs2 i, rep h l cs -> rep h s cs2 ->
+  (in_range s i -> exists h' l' v, list_get h s i = Safe v /\
+       list_append_a h l (ARef s i) = Safe (h', l') /\ rep h' l' (cs ++ [v]) /\
+       live_cells h' = live_cells h + 1) /\
+  (~ in_range s i -> list_append_a h l (ARef s i) = Unsafe OutOfBounds) /\
+  (in_range s i -> exists h' l' v, list_get h s i = Safe v /\
+       list_remove_a h l (ARef s i) = Safe (h', l') /\
+       rep h' l' (match remove_first v cs with Some c => c | None => cs end) /\
+       live_cells h' + size l = live_cells h + size l').
+Proof.
+  intros h l cs s cs2 i H Hs. unfold in_range. rewrite (rep_size h s cs2 Hs).
+  pose proof (py_index_some_iff (length cs2) i) as P.
+  pose proof (append_ref_ok h l cs s cs2 i H Hs) as A.
+  pose proof (remove_ref_ok h l cs s cs2 i H Hs) as R.
+  rewrite (get_spec h s cs2 i Hs).
+  destruct (py_index (length cs2) i) as [k|] eqn:E.
+  - split; [|split].
+    + intros _. destruct A as (h' & l' & EA & U). exists h', l', (nth k cs2 0%Z).
+      split; [reflexivity|]. split; [exact EA|]. split; [apply (uo_rep _ _ _ _ _ U)|].
+      pose proof (uo_cells _ _ _ _ _ U) as C. pose proof (rep_size _ _ _ (uo_rep _ _ _ _ _ U)) as S1.
+      pose proof (rep_size _ _ _ H) as S0. rewrite app_length in S1. simpl in S1. lia.
+    + intros N. exfalso. apply N, P. eauto.
+    + intros _. destruct R as [(h' & l' & cs' & ER & U & Hcs)|(_ & Hn)]; [|discriminate].
+      exists h', l', (nth k cs2 0%Z). split; [reflexivity|]. split; [exact ER|].
+      rewrite <- (Hcs k eq_refl). split; [apply (uo_rep _ _ _ _ _ U) | apply (uo_cells _ _ _ _ _ U)].
+  - split; [|split].
+    + intros Rg. apply P in Rg. destruct Rg as (k & Hk). discriminate.
+    + intros _. exact A.
+    + intros Rg. apply P in Rg. destruct Rg as (k & Hk). discriminate.
+Qed.
+
+(* ring.append(ring[0]); ring.remove(ring[0]); front, back = back, front; a, b, c = b, c, a *)
+Definition ok2_setup : list stmt :=
+  [LDeclLit 0 [5; 6; 7; 8]; LDeclLit 1 [4; 5; 6]; LDeclLit 2 [9]; LTuple [1; 0] [RVar 0; RVar 1]]%Z.
+Definition ok2_body : list stmt :=
+  [LAppendRef 0 0 0; LRemoveRef 0 0 0; LAppendRef 1 0 (-1); LRemoveRef 1 1 0;
+   LTuple [0; 1] [RVar 1; RVar 0]; LTuple [0; 1; 2] [RVar 1; RVar 2; RVar 0]; LGet 2 (-1)]%Z.
+
+Lemma ok2_guard : single_owner ok2_setup ok2_body = true.
+Proof. vm_compute. reflexivity. Qed.
+
+Lemma ok2_python : exists pst, run_py ok2_setup ok2_body 5 = POk pst /\ p_live pst = 8.
+Proof. eexists. split; vm_compute; reflexivity. Qed.
+
+(* def ident(xs): return xs    a = [1, 2, 3]; a = ident(a)
+   __redu_list_assign(a, ident(a)): the source is a temporary struct copy of a, so &dest != &source,
+   dest.data is deleted and the copy loop then reads it through source.data *)
+Definition ret_setup : list stmt := [LDeclLit 0 [1; 2; 3]; LAssignRet 0 0]%Z.
+
+Lemma assign_self_alias_use_after_free :
+  exists setup body n pst,
+    run_py setup body n = POk pst /\ run_fw setup body n = Unsafe UseAfterFree.
+Proof. exists ret_setup, [], 0. eexists. split; vm_compute; reflexivity. Qed.
+
+(* a = [1, 2, 3]; b = [4, 5, 6]   while True: a, b = [7, 8, 9], a
+   plain struct assignments from the temporaries: b's old buffer is dropped without delete[] in every pass *)
+Definition tuple_leak_setup : list stmt := [LDeclLit 0 [1; 2; 3]; LDeclLit 1 [4; 5; 6]]%Z.
+Definition tuple_leak_body : list stmt := [LTuple [0; 1] [RLit [7; 8; 9]; RVar 0]]%Z.
+
+Lemma tuple_literal_leak : leaks tuple_leak_setup tuple_leak_body.
+Proof. leak_witness. Qed.
+
+Lemma self_argument_safe : forall h l cs i, rep h l cs -> in_range l i ->
+  exists h' l' v, list_get h l i = Safe v /\ list_append_a h l (ARef l i) = Safe (h', l') /\ rep h' l' (cs ++ [v]).
+Proof.
+  intros h l cs i H R. destruct (argument_alias_safe h l cs l cs i H H) as (A & _).
+  destruct (A R) as (h' & l' & v & G & E & Rp & _). exists h', l', v. auto.
+Qed.
